@@ -96,6 +96,9 @@ func (fv *funcVerifier) havocAll(st *State) {
 	if st.dead() {
 		return
 	}
+	if !fv.inLoopHavoc {
+		fv.wildHavoc = true
+	}
 	st.heap = map[string]smt.Term{}
 	st.base = fv.newBase()
 	nf := fv.c.Fresh("frontier", smt.Int)
